@@ -27,7 +27,7 @@ def generate(ctx):
              "reward": rng.choice(["scalar+", "scalar-", "tensor", "tensor"]), "scale": rng.choice([1.0, 0.5, -0.5, -1.5]),
              "p": rng.choice([0.2, 0.4, 0.7]), "seed": rng.randrange(1 << 30), "delay": rng.choice([1, 2, 3]),
              "delay_values": rng.choice(["ongrid", "offgrid", "zero"]), "reassign_delays": rng.random() < 0.4,
-             "per_cell": rng.random() < 0.4, "inplace": rng.random() < 0.5, "clear_at": rng.choice([None, None, 2, 3, 5]), "keepshape": rng.random() < 0.6,
+             "per_cell": rng.random() < 0.4, "inplace": rng.random() < 0.5, "online": rng.random() < 0.3, "clear_at": rng.choice([None, None, 2, 3, 5]), "keepshape": rng.random() < 0.6,
              "tensor_kwargs": rng.choice([[], [], ["post_learning_rate"], ["post_time_constant", "pre_learning_rate"],
                                           ["post_learning_rate", "post_time_constant"], ["pre_time_constant"]])}
         if rng.random() < 0.4:
@@ -144,7 +144,9 @@ def _formula(ctx, desc):
     red = desc["reduction"]
     h = tr.Harness(name, desc["conn"], dt=desc["dt"], B=desc["B"], delay_steps=desc["delay"], seed=desc["seed"],
                    batch_reduction=c08.RED[red], hyper=hyper, dtype=torch.float64, max_delay_steps=(3 if desc["delay"] else None),
-                   per_cell=desc.get("per_cell", False))
+                   per_cell=desc.get("per_cell", False), online=bool(desc.get("online")))
+    if h.online:
+        ctx.count("cases_with_the_trainer_stepped_from_a_layer_forward_hook")
     if desc.get("tensor_kwargs") and "Kernel" in name:
         ctx.count("tensor_valued_kernel_kwargs_cases")
     g = torch.Generator().manual_seed(desc["seed"] + 5)
